@@ -589,10 +589,10 @@ def run_job(job):
             natobs = nat.obs
             if err:
                 res["inconclusive"].append("%s: native replay of a path failed to run: %s" % (label, err))
-            elif sorted((f[0], f[1]) for f in nat.failed) != sorted((c["obl"], c["key"]) for c in pc.checks if c.get("uncond")):
+            elif not _same_failures(nat.failed, pc.checks, oc):
                 res["inconclusive"].append("%s: ENGINE MISMATCH native failures %s differ from the symbolic path's (inputs %s)" % (
                     label, [f[:2] for f in nat.failed][:2], json.dumps(inputs)[:300]))
-            elif _plain(symobs) != _plain(natobs):
+            elif (_plain(symobs) != _plain(natobs)[:len(symobs)]) if oc == "failed-check" else (_plain(symobs) != _plain(natobs)):
                 diff = next(((a, b) for a, b in zip(_plain(symobs), _plain(natobs)) if a != b), (len(symobs), len(natobs)))
                 res["inconclusive"].append("%s: ENGINE MISMATCH symbolic vs native observation %s (inputs %s)" % (
                     label, json.dumps(diff)[:300], json.dumps(inputs)[:300]))
@@ -607,6 +607,16 @@ def run_job(job):
     res["solver_s"] = stats.solver_s
     res["wall_s"] = time.time() - t0
     return res
+
+
+def _same_failures(nat_failed, checks, outcome):
+    """the native run must fail exactly the checks that fail on every model of the symbolic path
+    (a path cut short at such a check may fail further checks natively)"""
+    nf = sorted((f[0], f[1]) for f in nat_failed)
+    sf = sorted((c["obl"], c["key"]) for c in checks if c.get("uncond"))
+    if outcome == "failed-check":
+        return all(x in nf for x in sf)
+    return nf == sf
 
 
 def job_public(job):
